@@ -92,8 +92,12 @@ def prove_equal(I, a, b, label, kind='assert'):
         if isinstance(a, FB) and isinstance(b, FB):
             r, md, dt = query(I, a.e != b.e, label)
             I.results.append({'kind': kind, 'label': label, 'status': r, 'detail': md}); return
-        same = (a == b) or (a != a and b != b)
-        I.results.append({'kind': kind, 'label': label, 'status': 'unsat' if same else 'sat', 'detail': {'lhs': repr(a), 'rhs': repr(b)}, 'concrete': True}); return
+        same = (not isinstance(a, RV) and not isinstance(b, RV)) and ((a == b) or (a != a and b != b))
+        if same:
+            I.results.append({'kind': kind, 'label': label, 'status': 'unsat', 'detail': None, 'concrete': True}); return
+        # a non-finite value against a finite one: any model of the path condition is a counterexample
+        r, md, dt = query(I, z3.BoolVal(True), label)
+        I.results.append({'kind': kind, 'label': label, 'status': 'sat' if r == 'sat' else ('unsat' if r == 'unsat' else 'unknown'), 'detail': md, 'nonfinite': [repr(a)[:40], repr(b)[:40]], 'concrete': True}); return
     t0 = time.time()
     qs = R.equal_queries(ra, rb)
     pend = []
@@ -178,6 +182,7 @@ def run_path(I, fn, decisions, time_limit):
     res['called'] = sorted(I.called); res['stubs'] = sorted(I.stub_used); res['notes'] = I.notes; res['choices'] = dict(I.choices)
     res['gens'] = len(R.ST.gens); res['denoms'] = len(R.ST.denoms); res['trans'] = sorted(set(k for (k, a, v) in R.ST.trans.values()))
     res['pc_len'] = len(I.pc)
+    if I.fork_sites is not None: res['fork_sites'] = I.fork_sites
     if I.ext.get('post'):
         try: res['post'] = I.ext['post'](I)
         except Exception as ex: res['status'] = 'internal'; res['msg'] = 'post hook: ' + traceback.format_exc()[-2000:]
